@@ -51,8 +51,14 @@ def assumptions(pid):
     return get(pid).get("assumptions", [])
 
 
+FAST_TB = ["this check judges its cases with the zarith-backed extraction (Coq standard library ExtrOcamlZBigInt: Extract Inductive positive/Z/N => Big_int_Z.big_int "
+           "and its Extract Constant directives for Pos/N/Z add, succ, pred, sub, mul, min, max, compare, eqb, div, modulo, div_eucl, shiftl/shiftr, opp, abs, of_N, to_N, ...; "
+           "OCaml zarith 1.12) because the plain extraction is too slow; on every run a sample of the cases is re-judged with the plain extraction (ExtrOcamlBasic only) "
+           "and the verdict lines must be identical"]
+
+
 def trusted_base(pid):
-    return COMMON_TB + get(pid).get("trusted_base", [])
+    return COMMON_TB + (FAST_TB if get(pid).get("fast") else []) + get(pid).get("trusted_base", [])
 
 
 def notes(pid):
@@ -180,7 +186,7 @@ reg("C20",
     technique="Coq induction over the observation sequence; differential correspondence on gathered metric families",
     timeout={"quick": 600, "thorough": 3000})
 
-reg("C01",
+reg("C01", fast=True, fast_only=("sine",),
     rule="constant pacer: single calls on a boundary lattice of (Freq, Per, elapsed, hits) incl. 0, +-1, Per+-1, "
          "2^31, 2^62, MaxInt64, negatives, hits near the schedule and near MaxUint64; closed loops in virtual time "
          "(10..400 calls, every 400th 20000) for dividing, non-dividing and above-1-per-ns rates with no, rare and "
@@ -192,9 +198,13 @@ reg("C01",
              22: "release instants decrease", 23: "stall-free closed-loop count falls more than one hit (+1ns/hit) behind the schedule",
              40: "linear pacer panicked", 41: "linear pacer: released hit puts the count more than one hit above the schedule",
              42: "linear pacer: positive wait although the count is behind the schedule", 43: "linear pacer: negative frequency/unit does not stop the attack",
-             44: "linear pacer: zero frequency/unit does not mean unlimited rate", 45: "linear pacer, negative slope, while rate^2 >= 4|slope|delta^2: released hit puts the count more than one hit above the schedule"},
+             44: "linear pacer: zero frequency/unit does not mean unlimited rate", 60: "sine pacer panicked", 61: "sine pacer: released hit puts the count more than one hit above the schedule",
+             62: "sine pacer: positive wait although the count is behind the schedule", 63: "sine pacer: stall-free count falls more than one hit (+1ns/hit) behind the schedule",
+             64: "sine pacer: invalid configuration does not stop the attack",
+             45: "linear pacer, negative slope, while rate^2 >= 4|slope|delta^2: released hit puts the count more than one hit above the schedule"},
     diffs={10: "ConstantPacer.Pace differs from the model", 11: "ConstantPacer.Rate differs", 30: "closed-loop release instants differ from the model's", 31: "closed-loop final outcome differs",
-           50: "LinearPacer.Pace wait differs from the exact-Q model beyond the guard band", 51: "LinearPacer.Rate differs", 52: "LinearPacer: model stops, implementation waits", 53: "LinearPacer: implementation stops, model waits"},
+           50: "LinearPacer.Pace wait differs from the exact-Q model beyond the guard band", 51: "LinearPacer.Rate differs", 52: "LinearPacer: model stops, implementation waits", 53: "LinearPacer: implementation stops, model waits",
+           71: "SinePacer.Rate lies outside the verified enclosure of M + A sin(O + 2 pi t / P)"},
     assumptions=["linear and sine pacers use float64 arithmetic: see DESIGN.md section 5 C01 for their partial treatment",
                  "elapsed in [0, 2^63), hits in [0, 2^64) for the contract theorems (const_dom); the no-panic / sign theorems hold for all integers"],
     level_text="closed_loop_upper (generic, all pacers/stall histories/lengths), const_no_panic, const_neg_stops, const_zero_unlimited, const_overflow_stops, const_contract, const_positive_wait, const_lower are proved in Coq over Z with the uint64/int64 wrap-arounds of the Go code written out; the model is compared bit-exactly with ConstantPacer.Pace on every run, and the property's clauses are decided on every observed call and closed-loop trajectory by a checker defined in Coq.",
@@ -375,7 +385,7 @@ _CODEC_GEN = ("results with texts from a 32-entry alphabet rich in quotes, comma
               "first runes, U+2028/9, <>&, backslashes, emoji and the literal \\\\.; full 64-bit ranges of seq / bytes, codes 0..65535, latencies "
               "incl. 0, negative and MaxInt64-sized; timestamps 1970..2200 with nanoseconds in five zones; nil / empty / text / random bodies; nil / "
               "empty / 1..3-key multi-valued canonical headers")
-reg("C07",
+reg("C07", fast=True,
     rule="streams of 1..6 (every 10th 20..40) " + _CODEC_GEN + "; each stream is encoded and decoded by the real gob, CSV and JSON codecs, the CSV and JSON "
          "bytes are read by the model's independently written readers, and the Result type's fields are enumerated by reflection; every 25th case carries a "
          "CR LF inside a text (tag csv.crlf); all cases non-trivial",
@@ -391,7 +401,7 @@ reg("C07",
     level_text="csv_fields_roundtrip (Go's CSV reader recovers every field sequence without CR LF from the writer's output, all field contents, unbounded), rfc_csv_roundtrip (all fields), csv_crlf_refuted, b64_roundtrip, dec_roundtrip and csv_columns_documented are proved in Coq; the CSV and JSON layouts of the model are written from the documentation and act as the independent readers; tie by differential runs of the three real codecs.",
     technique="Coq round-trip proofs of the codec components; independent-reader differential correspondence",
     timeout={"quick": 900, "thorough": 3000})
-reg("C11",
+reg("C11", fast=True,
     rule="latency data sets of 1..12, ~800 (the digest's first re-merge), 1..3000, 5000..20000 and 30000 (thorough: 100000) samples drawn from uniform, log-normal, constant, few-valued, "
          "bimodal with a 10^12 gap, ramp and heavy-tailed distributions, arriving in random, sorted or reverse-sorted order, added to a real Metrics and closed; the processed state of the real digest "
          "(centroid means and weights, min, max) is read by reflection and the HDR report rendered by the real reporter; all cases non-trivial",
